@@ -437,3 +437,5 @@ def run(chk, facts, tier):
     parse_types(chk, facts)
     schema_flow(chk, facts)
     serialise_all(chk, facts)
+    from rules import shared_forms
+    shared_forms.check(chk, facts, "C10.SIBLING.forms", ["cedar_policy::api::", "cedar_policy_core::entities::"], 15)
